@@ -98,6 +98,12 @@ the abscissa was the load of the *last* stage). -/
 def serialPoints (stages : List Stage) : List (Rat × Rat) :=
   (List.range 11).map fun k => (((k : Nat) : Rat) / 10, serialEff stages (((k : Nat) : Rat) / 10))
 
+/-- **The characteristic of a serial train, computed by the model alone**: the shape-preserving cubic
+(`Pchip.curve`) through the eleven points, clamped like every efficiency — what
+`SerialSystem.get_efficiency_from_load_percentage` returns (the stages' own characteristics are `etaOfPoints`
+of their points, so no oracle is involved). -/
+def serialEta (stages : List Stage) (x : Rat) : Rat := effHat (etaOfPoints (serialPoints stages)) x
+
 /-- Abscissa as found before the repair of D9. -/
 def serialAbscissaLegacy (stages : List Stage) (x : Rat) : Rat :=
   (stageLoads x stages).getLast?.getD x
